@@ -410,6 +410,8 @@ parser_intel = yacc.yacc(debug=0,
     outputdir=tempfile.gettempdir(), tabmodule="ply_ia32_intel_20150429")
 
 def parse_ad(a):
+    # the lexer is shared: its line counter is per parse
+    lexer_intel.lineno = 1
     l = parser_intel.parse(a, lexer = lexer_intel)
     if not x86_afs.ad in l:
         l[x86_afs.ad] = False
